@@ -430,7 +430,7 @@ class AccessMixin:
     # ------------------------------------------------------------------
     # subscripts
     # ------------------------------------------------------------------
-    SMALL_TABLE = 8
+    SMALL_TABLE = 12
 
     def small_table_lookup(self, table, key, node, frame):
         """a dictionary with a handful of integer keys subscripted by a symbolic integer is a dispatch table: one case per key
@@ -476,7 +476,8 @@ class AccessMixin:
         if isinstance(obj, External):
             return External(obj.name + "[]")
         if isinstance(obj, dict):
-            if isinstance(key, Sym):
+            if isinstance(key, Sym) or (isinstance(key, External) and not isinstance(key, type) and obj and all(isinstance(k, int) for k in obj)):
+                # (a number the binding handed over -- a status byte -- is a number too: compared with each key in turn)
                 hit = self.small_table_lookup(obj, key, node, frame)
                 if hit is not None:
                     if hit[0]:
